@@ -126,6 +126,62 @@ def _locals_of(fn):
     return {x.id for x in ast.walk(fn) if isinstance(x, ast.Name) and isinstance(x.ctx, ast.Store)}
 
 
+def relocate_back(tree, modname, ref_functions, log):
+    """A private function that moved between a class body (as a staticmethod) and the module level, unchanged in name:
+    move it back to where the reference has it and address it as the reference does."""
+    funcs = dict(canon._functions(tree, modname))
+    present = set(funcs)
+    missing = {}
+    for q in ref_functions:
+        if q.startswith(modname + '.') and q not in present and '<locals>' not in q:
+            rest = q[len(modname) + 1:]
+            if rest.count('.') <= 1:
+                missing.setdefault(rest.rsplit('.', 1)[-1], []).append(q)
+    if not missing:
+        return
+    classes = {c.name: c for c in tree.body if isinstance(c, ast.ClassDef)}
+    for q, fn in list(funcs.items()):
+        if q in ref_functions or '<locals>' in q:
+            continue
+        name = q.rsplit('.', 1)[-1]
+        if not name.startswith('_') or name.startswith('__') or len(missing.get(name, ())) != 1:
+            continue
+        target = missing[name][0]
+        t_owner = target[len(modname) + 1:].rsplit('.', 1)[0] if '.' in target[len(modname) + 1:] else None
+        c_owner = q[len(modname) + 1:].rsplit('.', 1)[0] if '.' in q[len(modname) + 1:] else None
+        static = any(isinstance(d, ast.Name) and d.id == 'staticmethod' for d in fn.decorator_list)
+        if c_owner is None and t_owner in classes:
+            # module level -> staticmethod of the class
+            tree.body.remove(fn)
+            fn.decorator_list = [ast.Name(id='staticmethod', ctx=ast.Load())] + list(fn.decorator_list)
+            classes[t_owner].body.append(fn)
+            for cname, cnode in classes.items():
+                for c in ast.walk(cnode):
+                    if isinstance(c, ast.Call) and isinstance(c.func, ast.Name) and c.func.id == name:
+                        base = 'self' if cname == t_owner else t_owner
+                        c.func = ast.copy_location(ast.Attribute(value=ast.Name(id=base, ctx=ast.Load()), attr=name,
+                                                                 ctx=ast.Load()), c.func)
+            for top in tree.body:
+                if not isinstance(top, ast.ClassDef):
+                    for c in ast.walk(top):
+                        if isinstance(c, ast.Call) and isinstance(c.func, ast.Name) and c.func.id == name:
+                            c.func = ast.copy_location(ast.Attribute(value=ast.Name(id=t_owner, ctx=ast.Load()), attr=name,
+                                                                     ctx=ast.Load()), c.func)
+            ast.fix_missing_locations(tree)
+            log.append(('relocate', target, f'module-level {name} -> {t_owner}.{name}'))
+        elif c_owner in classes and t_owner is None and static:
+            classes[c_owner].body.remove(fn)
+            fn.decorator_list = [d for d in fn.decorator_list if not (isinstance(d, ast.Name) and d.id == 'staticmethod')]
+            idx = tree.body.index(classes[c_owner])
+            tree.body.insert(idx, fn)
+            for c in ast.walk(tree):
+                if isinstance(c, ast.Call) and isinstance(c.func, ast.Attribute) and c.func.attr == name \
+                        and isinstance(c.func.value, ast.Name) and c.func.value.id in ('self', 'cls', c_owner):
+                    c.func = ast.copy_location(ast.Name(id=name, ctx=ast.Load()), c.func)
+            ast.fix_missing_locations(tree)
+            log.append(('relocate', target, f'{c_owner}.{name} -> module-level {name}'))
+
+
 def inline_helpers(tree, modname, ref_functions, log):
     """Inline calls to private helpers the reference tree does not know."""
     funcs = dict(canon._functions(tree, modname))
@@ -171,6 +227,26 @@ def inline_helpers(tree, modname, ref_functions, log):
         while changed and rounds < 4:
             changed = _inline_in(fn, owner, modname, cand, log, q)
             rounds += 1
+    # a new helper every use of which was inlined is no longer part of the program the rules look at
+    for hq, hfn in new_helpers.items():
+        name = hq.rsplit('.', 1)[-1]
+        used = False
+        for x in ast.walk(tree):
+            if x is hfn:
+                continue
+            if (isinstance(x, ast.Name) and x.id == name) or (isinstance(x, ast.Attribute) and x.attr == name) \
+                    or (isinstance(x, ast.Constant) and x.value == name):
+                if not any(y is x for y in ast.walk(hfn)):
+                    used = True
+                    break
+        if used:
+            continue
+        for parent in ast.walk(tree):
+            body = getattr(parent, 'body', None)
+            if isinstance(body, list) and any(y is hfn for y in body) and len(body) > 1:
+                body[:] = [y for y in body if y is not hfn]
+                log.append(('drop-inlined-helper', hq, name))
+                break
 
 
 def _resolve(call, owner, modname, new_helpers):
@@ -256,6 +332,8 @@ def _inline_in(fn, owner, modname, new_helpers, log, q):
                         if new is not None:
                             if kind == 'expr' and not _has_return(ast.Module(body=body, type_ignores=[])):
                                 new = body
+                            if kind == 'assign':
+                                new = _result_into_target(new, st.targets)
                             blk[i:i + 1] = new or [ast.Pass()]
                             log.append(('inline-helper', q, h.name))
                             changed = True
@@ -296,6 +374,51 @@ def _inline_in(fn, owner, modname, new_helpers, log, q):
     if changed:
         ast.fix_missing_locations(fn)
     return changed
+
+
+def _result_into_target(new, targets):
+    """`r = A; r = r.copy(); r[m] = v; T = r`  (an inlined helper that builds its result in a local r)  ->
+    `T = A.copy(); T[m] = v`: the helper's result variable becomes the caller's target."""
+    if not new or len(targets) != 1 or not isinstance(targets[0], ast.Name):
+        return new
+    T = targets[0].id
+    last = new[-1]
+    if not (isinstance(last, ast.Assign) and len(last.targets) == 1 and isinstance(last.targets[0], ast.Name)
+            and last.targets[0].id == T and isinstance(last.value, ast.Name)):
+        return new
+    r = last.value.id
+    head = new[:-1]
+    if r == T or not head or any(isinstance(x, ast.Name) and x.id == T for s_ in head for x in ast.walk(s_)):
+        return new
+    if any(isinstance(s_, (ast.If, ast.For, ast.While, ast.Try, ast.With, ast.Return)) for s_ in head):
+        return new
+    if not any(isinstance(x, ast.Name) and x.id == r and isinstance(x.ctx, ast.Store) for s_ in head for x in ast.walk(s_)):
+        return new
+    for s_ in head:
+        for x in ast.walk(s_):
+            if isinstance(x, ast.Name) and x.id == r:
+                x.id = T
+    # x = A; x = E(x)  ->  x = E(A)   (A a plain path or subscript: evaluated once either way)
+    out = []
+    for s_ in head:
+        prev = out[-1] if out else None
+        if prev is not None and isinstance(prev, ast.Assign) and isinstance(s_, ast.Assign) and len(prev.targets) == 1 \
+                and len(s_.targets) == 1 and isinstance(prev.targets[0], ast.Name) and isinstance(s_.targets[0], ast.Name) \
+                and prev.targets[0].id == s_.targets[0].id == T and _is_path_or_sub(prev.value):
+            uses = [x for x in ast.walk(s_.value) if isinstance(x, ast.Name) and x.id == T]
+            if len(uses) == 1:
+                out[-1] = ast.Assign(targets=[ast.Name(id=T, ctx=ast.Store())], value=_Subst({T: prev.value}).visit(s_.value))
+                continue
+        out.append(s_)
+    return out
+
+
+def _is_path_or_sub(v):
+    while isinstance(v, (ast.Attribute, ast.Subscript)):
+        if isinstance(v, ast.Subscript) and any(isinstance(x, ast.Call) for x in ast.walk(v.slice)):
+            return False
+        v = v.value
+    return isinstance(v, ast.Name)
 
 
 def _unconditional(st, call):
@@ -497,6 +620,7 @@ def apply(tree, modname):
     has_new_helper = any(q not in ref_functions and '<locals>' not in q and q.rsplit('.', 1)[-1].startswith('_')
                          and not q.rsplit('.', 1)[-1].startswith('__') for q, _ in funcs)
     n0 = len(log)
+    relocate_back(tree, modname, ref_functions, log)
     inline_helpers(tree, modname, ref_functions, log)
     if len(log) != n0:
         funcs = canon._functions(tree, modname)
@@ -520,6 +644,8 @@ def apply(tree, modname):
     # pure renames first (a local that matches a missing reference local is that local, not a new temporary) ...
     for q_, new_, old_ in canon.apply(tree, modname):
         log.append(('rename', q_, f'{new_}->{old_}'))
+    for q_, text_, what_ in canon.restore_call_shapes(tree, modname):
+        log.append((what_, q_, text_))
     if dirty:
         # ... then whatever is still unknown to the reference and assigned once is a temporary
         inline_temporaries(dirty, table, log)
@@ -532,6 +658,7 @@ def apply(tree, modname):
 def canonical_shapes(tree, modname):
     """Shape canonicalisations applied to every tree (reference and current alike); not logged as refactor reversals."""
     split_parallel_assignments(tree)
+    expand_literal_kwargs(tree)
     fold_augmented(tree)
     loops_to_comprehensions(tree, [], modname)
 
@@ -592,6 +719,20 @@ def fold_augmented(tree):
                 j += 1
 
 
+def expand_literal_kwargs(tree):
+    """f(**{'a': x, 'b': y}) -> f(a=x, b=y)."""
+    for c in ast.walk(tree):
+        if isinstance(c, ast.Call):
+            new = []
+            for k in c.keywords:
+                if k.arg is None and isinstance(k.value, ast.Dict) and k.value.keys \
+                        and all(isinstance(x, ast.Constant) and isinstance(x.value, str) and x.value.isidentifier() for x in k.value.keys):
+                    new.extend(ast.keyword(arg=x.value, value=v) for x, v in zip(k.value.keys, k.value.values))
+                else:
+                    new.append(k)
+            c.keywords = new
+
+
 def split_parallel_assignments(tree):
     """`a, b = x, y` (no target occurs in a value) -> `a = x; b = y`."""
     for parent in ast.walk(tree):
@@ -637,6 +778,22 @@ def _loop_to_elt(body, name):
         if isinstance(st, ast.Assign) and len(st.targets) == 1 and isinstance(st.targets[0], ast.Name) \
                 and st.targets[0].id not in temps and st.targets[0].id != name:
             temps[st.targets[0].id] = _Subst(dict(temps)).visit(_clone(st.value))
+            continue
+        if isinstance(st, ast.Assign) and len(st.targets) == 1 and isinstance(st.targets[0], (ast.Tuple, ast.List)) \
+                and all(isinstance(e, ast.Name) and e.id not in temps and e.id != name for e in st.targets[0].elts) \
+                and isinstance(st.value, ast.Call):
+            # a, _ = f(...): a -> f(...)[0]
+            val = _Subst(dict(temps)).visit(_clone(st.value))
+            for k_, e in enumerate(st.targets[0].elts):
+                temps[e.id] = ast.Subscript(value=_clone(val), slice=ast.Constant(value=k_), ctx=ast.Load())
+            continue
+        if isinstance(st, ast.If) and not st.orelse and len(st.body) == 1 and isinstance(st.body[0], ast.Assign) \
+                and len(st.body[0].targets) == 1 and isinstance(st.body[0].targets[0], ast.Name) \
+                and st.body[0].targets[0].id in temps and k < len(body) - 1:
+            # t = E; if C: t = F  ->  t = F if C else E
+            sub_ = _Subst(dict(temps))
+            t_ = st.body[0].targets[0].id
+            temps[t_] = ast.IfExp(test=sub_.visit(_clone(st.test)), body=sub_.visit(_clone(st.body[0].value)), orelse=temps[t_])
             continue
         rest = body[k:]
         sub = _Subst(dict(temps))
